@@ -31,14 +31,13 @@ def run(ctx):
     q = ctx.quick
     behs = []
     # (M)+(R) exhaustive small model, one behaviour per coverage class (per worker)
-    mc = ctx.tlc("checkpoint", "Checkpoint", "MC_quick.cfg", workers=8, timeout=900)
+    mc = ctx.tlc("checkpoint", "Checkpoint", "MC_quick.cfg", workers=4, timeout=900)
     ctx.account(mc)
     behs += mc.emitted
     ctx.log("MC_quick: %d generated / %d distinct, %d behaviours" % (mc.generated, mc.distinct, len(mc.emitted)))
     # (M)+(R) scenario skeletons: every parameterisation of a deep scenario shape
-    for cfg in ("MC_dup.cfg", "MC_side.cfg"):
-        r = ctx.tlc("checkpoint", "Checkpoint", cfg, workers=8, timeout=900,
-                    constants=None if q else {"MaxOps": 10})
+    for cfg in ("MC_dup.cfg", "MC_side.cfg", "MC_reuse.cfg"):
+        r = ctx.tlc("checkpoint", "Checkpoint", cfg, workers=4, timeout=900)
         ctx.account(r)
         behs += r.emitted
         ctx.log("%s: %d generated / %d distinct, %d behaviours" % (cfg, r.generated, r.distinct, len(r.emitted)))
@@ -48,22 +47,42 @@ def run(ctx):
         ctx.log("MC_big: %d generated / %d distinct" % (big.generated, big.distinct))
     # (R) seeded random walks over the larger alphabet
     d = 12 if q else 16
-    sim = ctx.tlc("checkpoint", "Checkpoint", "SIM.cfg", simulate=(12 if q else 400), depth=d + 3, workers=8,
+    sim = ctx.tlc("checkpoint", "Checkpoint", "SIM.cfg", simulate=(12 if q else 400), depth=d + 3, workers=4,
                   constants={"MaxOps": d}, timeout=(60 if q else 900))
     ctx.account(sim)
     behs += sim.emitted
     ctx.log("SIM: %d walks" % len(sim.emitted))
     if not behs:
         raise vlib.Infra("no behaviours emitted")
-    # quick tier: bound the number of real-head replays (each behaviour costs three head opens)
-    cap = int(os.environ.get("VERIF_C15_CAP", "700" if q else "20000"))
+    # one behaviour per coverage class (the class registry is per TLC worker and per cfg): keep the
+    # shortest witness of every class, seeded tie-break; walks have no class and are all kept
+    import random
+    rnd = random.Random(ctx.seed)
+    best = {}
+    walks = []
+    for b in behs:
+        cl = b.get("cl")
+        if cl is None:
+            walks.append(b)
+            continue
+        key = (len(b["hist"]), rnd.random())
+        if cl not in best or key < best[cl][0]:
+            best[cl] = (key, b)
+    behs = [v[1] for v in sorted(best.values(), key=lambda v: v[0])] + walks
+    ctx.log("%d coverage classes + %d walks" % (len(best), len(walks)))
+    cap = int(os.environ.get("VERIF_C15_CAP", "1200" if q else "50000"))
     if len(behs) > cap:
-        # keep the deepest ones of every source, deterministic by seed
-        import random
-        rnd = random.Random(ctx.seed)
-        behs.sort(key=lambda b: (-len(b["hist"]), rnd.random()))
+        rnd.shuffle(behs)
         behs = behs[:cap]
     ctx.samples = [behs[0], behs[len(behs) // 2]]
+    if os.environ.get("VERIF_CORRUPT"):      # binding self-test: corrupt one predicted field -> must exit 1
+        for b in behs:
+            w = b["fin"]["want"]["smp"]
+            k = sorted(w)[0]
+            if w[k] and not b["fin"]["kf"]:
+                w[k][0][1] += 1
+                b["fin"]["got"]["smp"][k][0][1] += 1
+                break
     inp = ctx.write_ndjson("behaviours.ndjson", behs)
     trace = ctx.tmp("c15_trace.ndjson")
     gr = ctx.go_test("tsdb", ["c15_checkpoint_test.go"], "^TestVerifC15Replay$",
